@@ -170,7 +170,7 @@ def probe_sharing(a, b, rec, clause, expect, tag):
     for src, dst, d in ((a, b, 'ab'), (b, a, 'ba')):
         # flow
         before = snap(dst)
-        v = 123.456 if d == 'ab' else 654.321
+        v = (123.456 if d == 'ab' else 654.321) + sum(before['flows'].values())      # cannot coincide with a value the other side already holds
         if multi: src.imol[src.phases[0], ids[0]] = v
         else: src.imol[ids[0]] = v
         seen = bycas(snap(dst)['flows']) != bycas(before['flows'])
@@ -182,10 +182,10 @@ def probe_sharing(a, b, rec, clause, expect, tag):
                 mv = x.mass; mv = mv.to_array() if hasattr(mv, 'to_array') else np.asarray(mv)
                 rec.check(np.allclose(mv, x.mol.to_array() * x.chemicals.MW, rtol=1e-12, atol=0), clause, f'mass-view/{tag}', 'mass view != mol*MW on a linked stream')
         # TP
-        T0 = dst.T; newT = src.T + (3.25 if d == 'ab' else 1.75)
+        T0 = dst.T; newT = max(src.T, dst.T) + (3.25 if d == 'ab' else 1.75)      # differs from both current values: dst.T == newT iff T is shared
         src.T = newT
         rec.check((dst.T == newT) == expect['TP'], clause, f'T-{"not-" if expect["TP"] else ""}shared/{tag}', f'T write {"not " if expect["TP"] else ""}visible on the other side (expected shared={expect["TP"]})')
-        P0 = dst.P; newP = src.P + (1000. if d == 'ab' else 500.)
+        P0 = dst.P; newP = max(src.P, dst.P) + (1000. if d == 'ab' else 500.)
         src.P = newP
         rec.check((dst.P == newP) == expect['TP'], clause, f'P-{"not-" if expect["TP"] else ""}shared/{tag}', f'P write {"not " if expect["TP"] else ""}visible on the other side')
         # phase (single-phase only)
